@@ -73,6 +73,7 @@ pub fn cfg_event(sc: &Scenario, t: u64) -> Value {
         "nat_at": sc.topo.paths.first().map_or_else(Vec::new, |p| p.hops.iter().enumerate().filter(|(_, h)| h.nat > 0).map(|(i, _)| i + 1).collect::<Vec<_>>()),
         "nat_cell": sc.fam == 4 && sc.proto == "udp" && sc.strat == "dublin",
         "dublin6": sc.strat == "dublin" && sc.fam == 6,
+        "tcp_timeout": sc.tcp_timeout_us,
         "regrow": sc.regrow, "change_round": sc.topo.change_round,
         "dist_after": sc.topo.paths_after.first().map_or(0, |p| p.dist)})
 }
